@@ -502,7 +502,7 @@ class CodeBuilder:
                 alias = self.__get_field_alias(fname, ftype, metadata, config)
 
                 filtered_fields.append((fname, alias, ftype))
-            if filtered_fields:
+            if filtered_fields or config.forbid_extra_keys:
                 forbid_extra_keys_lines = CodeLines()
                 if config.forbid_extra_keys:
                     allowed_keys = {
@@ -524,9 +524,15 @@ class CodeBuilder:
                     # emitted inside the try block below so that a non-mapping
                     # argument is reported as ValueError like everywhere else
                     forbid_extra_keys_lines.append("d_keys = set(d.keys())")
-                    forbid_extra_keys_lines.append(
-                        f"forbidden_keys = d_keys - {{{allowed_keys_str}}}"
-                    )
+                    if allowed_keys:
+                        forbid_extra_keys_lines.append(
+                            f"forbidden_keys = d_keys - {{{allowed_keys_str}}}"
+                        )
+                    else:
+                        # a class without constructor parameters
+                        forbid_extra_keys_lines.append(
+                            "forbidden_keys = d_keys"
+                        )
                     with forbid_extra_keys_lines.indent("if forbidden_keys:"):
                         forbid_extra_keys_lines.append(
                             "raise ExtraKeysError(forbidden_keys,cls) "
